@@ -16,6 +16,7 @@ import Fca.Drv.C15
 import Fca.Drv.C03
 import Fca.Drv.C04
 import Fca.Drv.C02
+import Fca.Drv.C19
 open Lean Fca.Drv
 
 def allHandlers : List (String × Handler) :=
@@ -32,7 +33,8 @@ def allHandlers : List (String × Handler) :=
   Fca.Drv.C15.handlers ++
   Fca.Drv.C03.handlers ++
   Fca.Drv.C04.handlers ++
-  Fca.Drv.C02.handlers
+  Fca.Drv.C02.handlers ++
+  Fca.Drv.C19.handlers
 
 def dispatch (line : String) : String :=
   match Json.parse line with
